@@ -87,6 +87,8 @@ def generate(rng, tier):
         add(t, "pretty-printed")
     for n in G.long_numbers(rng):
         add(b"[" + n + b"]", "long-number")
+    for n in G.number_edges():
+        add(rng.choice([b"[%s]", b'{"v":%s}', b"[0,%s ,1]"]) % n, "number-edge")
     for _ in range(1500 if quick else 120000):
         add(G.gen_doc(rng, maxdepth=rng.choice([2, 4, 6])), "random")
     return cases
